@@ -28,6 +28,12 @@ def answer (line : String) : String :=
       let rep := idIssues is
       if rep.isEmpty then "-" else ",".intercalate (sortStrs rep)
     | none => "bad-line"
+  | some (.list [.atom "ident", .atom a]) =>
+    match fromHex (a.drop 1).toString with
+    | some cs =>
+      match identifier (String.ofList cs).toList with
+      | .ok => "ok" | .empty => "empty" | .beginsWithDigit => "begins_with_digit" | .notLatinAlphanumeric => "not_latin_alphanumeric"
+    | none => "bad-line"
   | _ => "bad-line"
 
 end Cellml.Engine.Valid
